@@ -1,6 +1,7 @@
 import Ubx.Proofs.CodeWalk
 import Ubx.Proofs.WalkShape
 import Ubx.Proofs.CodeBitsW
+import Ubx.Proofs.CodeCfgValW
 set_option maxRecDepth 10000
 namespace Ubx.Py
 open Ubx Ubx.Gen.Code
@@ -8,7 +9,7 @@ open Ubx Ubx.Gen.Code
 variable (c : WCtx) (cls id : Bytes) (mode : Nat)
 
 theorem walkLike_walkHost : WalkLike c cls id mode (walkHost c cls id mode) :=
-  ⟨rfl, rfl, rfl, rfl, rfl, rfl, rfl, fun _ _ _ _ => rfl, fun _ _ _ _ _ => rfl, fun _ _ _ _ _ => rfl, fun _ _ _ _ _ => rfl, fun _ _ _ => rfl⟩
+  ⟨rfl, rfl, rfl, rfl, rfl, rfl, rfl, fun _ _ _ _ => rfl, fun _ _ _ _ _ => rfl, fun _ _ _ _ _ => rfl, fun _ _ _ _ _ => rfl⟩
 
 theorem recMcall_other (F f : Nat) (o : AO) (ho : o ≠ .self) (m : Name) (args : List (V AO)) (kw : List (Name × V AO)) (st : ASt) :
     recMcall c cls id mode F f (.host o) m args kw st = aMcall c (.host o) m args kw st := by
@@ -19,13 +20,11 @@ theorem recMcall_int (F f : Nat) (n : Int) (m : Name) (args : List (V AO)) (kw :
   cases f <;> rfl
 
 theorem walkLike_rec (F f : Nat) : WalkLike c cls id mode (recHost c cls id mode F f) := by
-  refine ⟨rfl, rfl, rfl, rfl, rfl, rfl, rfl, ?_, ?_, ?_, ?_, ?_⟩
+  refine ⟨rfl, rfl, rfl, rfl, rfl, rfl, rfl, ?_, ?_, ?_, ?_⟩
   · intro m args kw st; exact recMcall_other c cls id mode F f .kwargs (by simp) m args kw st
   · intro items m args kw st; exact recMcall_other c cls id mode F f (.dict items) (by simp) m args kw st
   · intro l m args kw st; exact recMcall_other c cls id mode F f (.flags l) (by simp) m args kw st
   · intro n m args kw st; exact recMcall_int c cls id mode F f n m args kw st
-  · intro args kw st
-    cases f <;> simp [recHost, recMcall, mSetAttr, mSingle, mGroup, mCalc, mBitfield, mBits]
 
 theorem rec_setattr (F f : Nat) (args : List (V AO)) (kw : List (Name × V AO)) (st : ASt) :
     (recHost c cls id mode F (f + 1)).mcall (.host .self) 0x5f7365745f617474726962757465 args kw st
@@ -51,6 +50,10 @@ theorem rec_bits (F f : Nat) (args : List (V AO)) (kw : List (Name × V AO)) (st
     (recHost c cls id mode F (f + 1)).mcall (.host .self) 0x5f7365745f6174747269627574655f62697473 args kw st
       = runFn (recHost c cls id mode F f) F fn_UBXMessage__set_attribute_bits (.host .self :: args) st := by
   simp [recHost, recMcall, mSetAttr, mSingle, mGroup, mCalc, mBitfield, mBits]
+theorem rec_cfgval (F f : Nat) (args : List (V AO)) (kw : List (Name × V AO)) (st : ASt) :
+    (recHost c cls id mode F (f + 1)).mcall (.host .self) 0x5f7365745f6174747269627574655f63666776616c args kw st
+      = runFn (recHost c cls id mode F f) (max F (5 * (st.payload.length + 1) + 1)) fn_UBXMessage__set_attribute_cfgval (.host .self :: args) st := by
+  simp [recHost, recMcall, mSetAttr, mSingle, mGroup, mCalc, mBitfield, mBits, mCfgval]
 
 mutual
 /-- nesting depth of groups -/
@@ -146,8 +149,9 @@ theorem rec_bitfield_ok (F f : Nat) (n : Name) (ty : Ty) (fl : List (Name × Ty)
     the call budget covers two calls per nesting level plus three for a leaf (`_set_attribute` → `_set_attribute_bitfield` →
     `_set_attribute_bits`). Parse direction: no further hypothesis. Generate direction: flag keywords are ints or bools (`genOK`).
     (ESF-MEAS SET, whose repeat count depends on an attribute's truthiness, is left to the per-method theorem;
-    `_set_attribute_cfgval` is the model's `wCfgVal` here, tied in `CodeCfgVal.lean`.) -/
-theorem rec_item (hcfg : c.cfgval = cfgvalB cls id mode) (hesf : c.esfmeas = esfB cls id mode) (hne : c.esfmeas = false) (F : Nat) :
+    `_set_attribute_cfgval` is interpreted too, with a `while` budget taken from the payload length.) -/
+theorem rec_item (hcfg : c.cfgval = cfgvalB cls id mode) (hesf : c.esfmeas = esfB cls id mode) (hne : c.esfmeas = false)
+    (hsz : ∀ k n t, cfgkey2name c.ctx k = .ok (n, t) → ∃ m : Nat, attsiz t = .ok (m : Int)) (F : Nat) :
     ∀ (d f : Nat), 2 * d + 3 ≤ f → ∀ (it : Item), idepth it ≤ d → shapeOK it = true → (c.hasPayload = false → genOK c it) →
     ∀ (items : List Item), itemAt items (Item.key it) = some it → ∀ (idx : List Nat), (∀ i ∈ idx, 0 < i) → ∀ (off : Nat) (st : ASt),
     SpecW idx ((recHost c cls id mode F f).mcall (.host .self) 0x5f7365745f617474726962757465
@@ -197,7 +201,7 @@ theorem rec_item (hcfg : c.cfgval = cfgvalB cls id mode) (hesf : c.esfmeas = esf
       rw [rec_group]
       have hsL : shapeOKL its = true := shape_group n cnt its hsh
       have hdL : idepthL its ≤ d := by simp only [idepth] at hd; omega
-      refine set_attribute_group_eq c cls id mode _ (walkLike_rec c cls id mode F (f3 + 1)) F cnt its idx ?_ ?_ ?_ hcfg hesf off st ?_
+      refine set_attribute_group_eq c cls id mode _ (walkLike_rec c cls id mode F (f3 + 1)) F cnt its idx ?_ ?_ ?_ ?_ hcfg hesf off st ?_
       · -- every member, through `self._set_attribute`
         intro a it' hmem off' st'
         exact ih (f3 + 1) (by omega) it' (Nat.le_trans (idepth_mem its it' hmem) hdL) (shapeOKL_mem its hsL it' hmem)
@@ -210,6 +214,10 @@ theorem rec_item (hcfg : c.cfgval = cfgvalB cls id mode) (hesf : c.esfmeas = esf
         intro p off' st'
         rw [rec_calc]
         exact calc_num_repeats_eq c cls id mode _ (walkLike_rec c cls id mode F f3) F its p off' st'
+      · -- `self._set_attribute_cfgval`
+        intro off' st'
+        rw [rec_cfgval]
+        exact WB.set_cfgval_eq cls id mode _ c (walkLike_rec c cls id mode F f3) _ off' st' hsz (by omega)
       · intro a ha
         have := shapeOK_ItemShape _ hsh
         subst ha
